@@ -2,8 +2,11 @@
 
 Sub-checks
  alloc     lattice: every (vl, cl) vector of length 1..5 over V = {0, 1e-16, 1e-6, 1e-2, 1, 50} x C = {0.5, 1, 8, 1e3} (quick: length
-           <= 4) and rmse in {1, 0.1, 1e-3}, through the criteria object of GilesConvergenceCriteria:
-           N_l non-negative integers; sum_l V_l/N_l (0/0 read as 0) <= rmse^2 - (bias tolerance)^2, the consequence of the
+           <= 4) and rmse in {1, 0.1, 1e-3}, through the criteria object of GilesConvergenceCriteria; lengths 1..2 (thorough: 3)
+           also through the two other public ROUTES to the same functions (a ConvergenceCriteria of the module-level
+           functions, the default criteria of a ConfigurationMultiLevel; key suffix :<route>-route):
+           N_l non-negative integers; sum_l V_l/N_l (0/0 read as 0) <= rmse^2 - (bias tolerance)^2 (relative slack 1e-9: N_l >=
+           the real-valued optimum bounds the sum by the budget up to rounding, whatever the size of N), the consequence of the
            statement's two clauses. Nothing is read from the source: the bias tolerance is measured from the behaviour of the
            stopping test (sub-check budget), so the variance budget is what the stopping test leaves of rmse^2. Three fixed
            probe vectors are allocated before and after the enumeration of a case and must give the same sizes (the allocation
@@ -18,7 +21,7 @@ Sub-checks
            C=[1], rmse 2 ...), an optimum below one path, everyday vectors, LONG vectors (51 = default maximum level and 300
            levels; geometric, flat, periodic). Forms - variances: int64 / int32 / uint8 / uint16 / float32 arrays, read-only
            array, strided view, list and tuple of floats / of ints, (1, n) row; costs: float32, read-only, strided, (1, n) row,
-           int64; rmse: Python int, np.float64, np.float32, np.int64, np.int32, 0-d array; the keyword call of
+           int64, list of floats, tuple of ints (answered since 688714a); rmse: Python int, np.float64, np.float32, np.int64, np.int32, 0-d array; the keyword call of
            compute_mc_paths_giles. A form is applied where it holds the values exactly. quick: every form of one argument
            with the others usual, the pairs {int64, uint8, list-int, float32} x {python-int, np.float64, 0-d} and six stated
            triples (length 3: one argument at a time); thorough: the complete product of forms for lengths <= 2 and the
@@ -27,28 +30,36 @@ Sub-checks
            in single precision) are judged by the inequality only (1e-5); the argument objects are unchanged after the call;
            the answer is unchanged after the caller overwrote the earlier answer and the earlier argument arrays. The usual
            form itself is judged with tolerance 1e-9 (alloc: 1e-6). Array forms must be answered (raise = violation);
-           lenient forms (list / tuple / row, integer COSTS - the unchanged tree raises OverflowError on them) are counted when
-           the tree raises and judged when it answers.
-           stop part - ml in {0, 1, 2, 3, 4, 8}^3 preceded by nothing / one level, alpha {0.5, 1, 2}, rmse {1, 2, 4, 8} (exact ties
-           rem == tolerance included), forms of ml (integer dtypes, float32, read-only, strided, list / tuple of floats /
+           lenient forms (list / tuple / row, integer and sequence COSTS) are counted when the tree raises and judged when it
+           answers.
+           stop part - ml in {0, 1, 2, 3, 4, 8}^3 (for alpha > 2: {0, 1, 2, 8, 64, 512}^3, so that the third-last term can
+           decide) preceded by nothing / one level, alpha {0.5, 1, 2, 2.5, 3, 4}, rmse {1, 2, 4, 8} (exact ties
+           rem == tolerance included); the verdict of the USUAL form is itself judged one-sidedly against giles_estimate
+           (an accepted bias estimate must be within the tolerance; key ...:usual-form:<dominating term>:<alpha class>);
+           forms of ml (integer dtypes, float32, read-only, strided, list / tuple of floats /
            ints), of alpha and of rmse (as above): same verdict as the usual form (key says whether a bias estimate above
            the tolerance is accepted), arguments unchanged.
            engine part - ConvergenceRates / ConfigurationMultiLevel / Engine.price with their numbers as Python ints where
            whole (rmse=1, alpha=2), as numpy scalars (np.int64 levels and paths, np.float64 rates and rmse), rmse as a 0-d
            array; and the pricing run on copy.copy / copy.deepcopy / a dill round trip of the configuration after which the
-           ORIGINAL is re-parametrised through its public attributes: decay {0.6, 1, 2} x 5 kinds of rates x rmse {1, 0.2};
-           judge_run on every run and the same (L, Nl, converged, bias tests, weak rates) as in the usual form.
- budget    bias tolerance of the stopping test measured behaviourally: for alpha in {0.1, 0.25, 0.4, 0.5, 1, 2} the largest
+           ORIGINAL is re-parametrised through its public attributes: decay {0.6, 1, 2} x 5 kinds of rates x rmse {1, 0.2}, and
+           decay {2.5, 3, 4} (weak rates above 2; 3 and 4 also as ints; scaled profile with levels 1 and 2 bumped x8) x
+           {regressed, given, alpha-only} (thorough: 5 kinds); judge_run on every run and the same (L, Nl, converged, bias tests, weak rates) as in the usual form.
+ budget    bias tolerance of the stopping test measured behaviourally: for alpha in {0.1, 0.25, 0.4, 0.5, 1, 2, 2.5, 3, 4} the largest
            last-level mean the criterion accepts is found by bisection (ml = (x, x, x)), giving tol(alpha) = sup rem accepted /
            rmse; then tol^2 + share <= 1 + 1e-6.
  rays      the same measurement in EVERY direction of the last three level means, not only the diagonal: for each direction d
            in {0, 0.25, 1, 4}^3 without the origin (decreasing, flat, increasing, one level dominating, levels vanishing), preceded by no
-           / one / two further levels, alpha in {0.1, 0.25, 0.5, 0.6, 1, 2}, rmse in {1, 0.1, 1e-3}: sup x accepted for ml = x d by
+           / one / two further levels, alpha in {0.1, 0.25, 0.5, 0.6, 1, 2, 2.5, 3, 4} (one case per alpha; for the rates ABOVE 2 -
+           high-order scheme, smooth payoff, or regressed from fast-decaying means - the letters are {0, 0.25, 1, 4, 64, 1024}:
+           the weight 4^a of the third-last mean is 32 .. 256), rmse in {1, 0.1, 1e-3}; alpha {0.1, 1, 2.5, 3} (thorough: 7
+           rates) also through the two other routes to the criteria (see alloc): sup x accepted for ml = x d by
            bisection; the accepted bias estimate x * max(d_L, d_{L-1}/2^a, d_{L-2}/4^a)/(2^a-1) (Giles' remainder, written out
            in giles_estimate: which end of the vector is the finest level is part of the reference) must satisfy
-           estimate^2 + variance share <= rmse^2. One-sided: a criterion that is stricter than needed is not reported.
+           estimate^2 + variance share <= rmse^2. One-sided: a criterion that is stricter than needed is not reported. Keys end
+           with the class of the weak rate (alpha<0.5 / alpha>=0.5 / alpha>2).
  shape     the criterion is monotone (accepting ml implies accepting any smaller ml on a lattice), and looks at the last three
-           levels as stated in Giles' remainder estimate (checked on the lattice {1e-3, 1e-2, 1e-1, 1}^3 x alpha).
+           levels as stated in Giles' remainder estimate (checked on the lattice {1e-3, 1e-2, 1e-1, 1}^3 x alpha {0.25, 0.5, 1, 2, 3}).
  loop      the C05 choice exploration with a different oracle, per run (judge_run): terminates within the horizon; no
            simulate call and no next_level beyond maximum_level; the weak rate passed to the stopping test is the configured
            one or the regression of the very means it is tested on; returns only when the last evaluation of the bias test
@@ -57,6 +68,12 @@ Sub-checks
            rmse^2); the tested means are the reported sample means (the engine may only raise levels >= 3: its work-around for
            vanishing means); at return every level has Nl >= N*_l / 1.01 with N* recomputed by the criteria object from the
            reported vl, cl.
+           HIGH-ORDER loop (the C05 lattice has the first-order rates alpha = 1, beta = 2 only; key suffix :high-order): weak
+           decay a in {2.5, 3, 4}, level means 2^(a (3 - l)), level sd 2^(-l), cost 2^l, rates given (a, 2, 1) / regressed,
+           rmse 0.5 (one config each 0.3; thorough: rmse x initial paths x maximum level 5 / 6); the environment chooses per
+           level (at its first batch) one of {default, large variance, zero mean, mean x2, x4, x8, x64, mean that does not
+           decay} - a multiplied mean two levels below the last is the case where the third-last extrapolated term decides -
+           and per later batch default / large variance; every history with at most 1 (thorough: also 2) non-default answers.
  profile   the same oracle on scripted NON-GEOMETRIC level means (the regimes of loop are all geometric): m_l = 0.5 2^(-a l)
            mult_l, a in {0.6, 1, 2}, mult = 1 except on one level or two levels (quick: adjacent; thorough: any pair) where it
            ranges over {0, 1/8, 8, 64} (a mean that vanishes / dips / rises / dominates), every position 0..maximum_level; the
@@ -66,6 +83,13 @@ Sub-checks
            (initial_level, initial_mc_paths) {(2, 4), (3, 7)}. Thorough: maximum_level 6 and 8, both rmse and both sd on the
            bumped profiles. Deepest hierarchy: maximum_level 50 (the default), plain profiles, run to the maximum level
            (criteria_run_to_maximum_level) and with the Giles test, rates regressed / given.
+           WEAK RATES ABOVE 2 (key suffix :high-order): a in {2.5, 3, 4} with m_l = 2^(a (3 - l)) / 2 mult_l (the runs are decided
+           on levels 2..5): plain profiles x 3 rmse x 6 kinds of rates (the five above and (a, 2a, 1) given) x 2 sd x criteria
+           {default, functions} (thorough: all 4, both starts); bumped profiles as above (a bump two levels below the last =
+           the third-last term decides); maximum_level 50 for a = 3. A GIVEN weak rate that is not the decay of the means:
+           (decay, rate) in {(4, 2.5), (3, 2.5), (4, 3), (2.5, 4), (2, 3), (1, 2.5)} x rates {given, alpha-only} x 3 rmse x 2 sd.
+           Other starts for every decay: (initial_level, initial_mc_paths) {(5, 3), (6, 2) = maximum level, (2, 100)}. Slow / no
+           decay: a = 0.3 (regressed rate floored; alpha = 0.3 given alone and through compute_convergence_rates(1.4)), a = 0.
  history   several pricings in ONE process (the statement quantifies over histories; the library's scripts price a list of
            rmse one after the other). First pricing: scenario {fast decay, slow decay, a rising level mean} x rates (4 kinds) x
            construction route of the rates {explicit object, DEFAULT ARGUMENT of ConfigurationMultiLevel (one instance shared
@@ -75,14 +99,14 @@ Sub-checks
            dill round trip of the configuration, deepcopy of the engine, new configuration through the default argument /
            None / explicit regressed / explicit alpha-only,
            public attributes of the old configuration re-assigned (rates regressed / given / beta+gamma, criteria, levels,
-           paths)}. Thorough: a third pricing from a reduced menu, two more scenarios each. Oracle: judge_run on every
+           paths)}. Thorough: a third pricing from a reduced menu, three more scenarios each (one with a weak rate above 2). Oracle: judge_run on every
            pricing, and (L, Nl, converged, sequence of bias tests, weak rates) of every pricing equals that of the SAME
            pricing run alone in fresh, explicitly constructed objects.
  In loop / profile / history / forms-engine the two functions of the criteria object are also watched for writing to the arrays
  the engine hands them (vl, cl, ml: compared with copies after every call).
-Not covered: costs handed over as a Python LIST (annotated np.array; the unchanged tree answers it silently wrongly:
-`cl_zerocost[cl_zerocost == 0]` on a list is `cl_zerocost[False]`, i.e. the first cost becomes 1e30 - reported, not judged); zero
-costs in the forms sub-check (known finding, alloc0); boolean / complex / object arrays; ConvergenceCriteria built from user
+Not covered: zero
+costs in the forms sub-check (known finding, alloc0); a weak rate of exactly 0 given (2^0 - 1 = 0: the estimate is infinite); sample
+sizes beyond 2^63 (rmse below about 1e-9 with unit variances); boolean / complex / object arrays; ConvergenceCriteria built from user
 functions other than the three of criteria.py; rmse outside the stated values; real coupling processes; initial_level < 2 (the bias test needs three levels: Engine.price raises IndexError there - the
 statement is silent); initial_level > maximum_level; initial_mc_paths = 0; nb_of_processes > 1 (C08).
 """
@@ -134,15 +158,22 @@ def cases(tier):
                 out.append({"sub": "alloc", "n": n, "v0": v0, "v1": None, "zero_cost": False})
     for n in range(1, 4):
         out.append({"sub": "alloc", "n": n, "v0": None, "v1": None, "zero_cost": True})
+    for route in CRITERIA_ROUTES[1:]:  # the other public routes to the same two functions
+        for n in ((1, 2, 3) if thorough else (1, 2)):
+            out.append({"sub": "alloc", "n": n, "v0": None, "v1": None, "zero_cost": False, "route": route})
+        for a in ((0, 2, 4, 5, 6, 7, 8) if thorough else (0, 4, 6, 7)):
+            out.append({"sub": "rays", "alpha": a, "route": route})
     out.append({"sub": "budget"})
     out.append({"sub": "shape"})
-    out.append({"sub": "rays"})
+    for a in range(len(RAY_ALPHAS)):
+        out.append({"sub": "rays", "alpha": a})
     out += forms_cases(tier)
     out += profile_cases(tier)
     out += history_cases(tier)
     for c in C5.cases(tier):
         if c["sub"] == "adaptive":
             out.append(dict(c, sub="loop"))
+    out += high_order_loop_cases(tier)
     return out
 
 
@@ -151,10 +182,21 @@ def check_case(sh, case):
      "history": _history, "forms": _forms}[case["sub"]](sh, case)
 
 
-def _criteria():
-    from rpylib.montecarlo.multilevel.criteria import GilesConvergenceCriteria
+CRITERIA_ROUTES = ["object", "functions", "configuration"]
 
-    return GilesConvergenceCriteria()
+
+def _criteria(route="object"):
+    """The pair (criteria, compute_mc_paths) by each public route to it: the GilesConvergenceCriteria object (the usual one),
+    a ConvergenceCriteria of the two module-level functions, the default criteria of a ConfigurationMultiLevel."""
+    from rpylib.montecarlo.multilevel import criteria as K
+
+    if route == "functions":
+        return K.ConvergenceCriteria(criteria=K.criteria_giles, compute_mc_paths=K.compute_mc_paths_giles)
+    if route == "configuration":
+        from rpylib.montecarlo.configuration import ConfigurationMultiLevel
+
+        return ConfigurationMultiLevel(seed=None, nb_of_processes=1).convergence_criteria
+    return K.GilesConvergenceCriteria()
 
 
 def variance_share(crit):
@@ -168,7 +210,8 @@ def variance_share(crit):
 
 
 def _alloc(sh, case):
-    crit = _criteria()
+    crit = _criteria(case.get("route", "object"))
+    rsuf = f":{case['route']}-route" if case.get("route") else ""
     # The two clauses of the statement combine into: sum V/N <= rmse^2 - (bias tolerance)^2. The bias tolerance is measured
     # from the behaviour of the stopping test, so the budget does not depend on how the source names its constants.
     tol = bias_tolerance(crit, 1.0)
@@ -197,7 +240,7 @@ def _alloc(sh, case):
                 with np.errstate(all="ignore"):
                     N = np.asarray(crit.compute_mc_paths(rmse, a_v, a_c))
                 if N.shape != vl.shape or not np.issubdtype(N.dtype, np.integer) or np.any(N < 0):
-                    sh.violation(f"C06:alloc:sample-sizes-not-non-negative-integers:{zc}",
+                    sh.violation(f"C06:alloc:sample-sizes-not-non-negative-integers:{zc}{rsuf}",
                                  f"compute_mc_paths({rmse}, {vl.tolist()}, {cl.tolist()}) = {N.tolist()}", None)
                     continue
                 Nf = N.astype(float)
@@ -205,21 +248,23 @@ def _alloc(sh, case):
                     terms = np.where(vl == 0.0, 0.0, vl / Nf)
                 est = float(np.sum(terms))
                 budget = share * rmse ** 2
-                if not (est <= budget * (1 + 1e-6)):
+                # N_l >= the real-valued optimum x_l (up to the rounding of x_l itself) gives sum V/N <= sum V/x = budget up to a
+                # few ulps, whatever the size of N: the slack does not have to absorb "one sample less"
+                if not (est <= budget * (1 + 1e-9)):
                     which = "zero-variance-present" if 0.0 in vt else "positive-variances"
-                    sh.violation(f"C06:alloc:estimator-variance-exceeds-variance-share:{zc}:{which}",
+                    sh.violation(f"C06:alloc:estimator-variance-exceeds-variance-share:{zc}:{which}{rsuf}",
                                  f"rmse={rmse}, vl={vl.tolist()}, cl={cl.tolist()}: N={N.tolist()}, sum V/N = {est:.6g} > "
                                  f"rmse^2 - (accepted bias)^2 = {share:.6g} rmse^2 = {budget:.6g}", {"share": share})
                 worst = max(worst, est / budget if budget else 0.0)
             if not (np.array_equal(a_v, vl) and np.array_equal(a_c, cl)):  # the engine goes on using its vl, cl
-                sh.violation(f"C06:alloc:argument-array-modified:{zc}",
+                sh.violation(f"C06:alloc:argument-array-modified:{zc}{rsuf}",
                              f"compute_mc_paths(rmse, {vl.tolist()}, {cl.tolist()}) for rmse in {RMSES} left vl={a_v.tolist()}, "
                              f"cl={a_c.tolist()} in the caller's arrays", None)
     after = probe()
     if after != before:  # the allocation is a function of its arguments: the calls in between must not change it
         sh.violation("C06:alloc:sample-sizes-depend-on-earlier-calls",
                      f"the same three (rmse, vl, cl) give {before} before and {after} after the enumeration of this case", None)
-    sh.outcome((n, case["v0"], case["v1"], round(worst, 6)))
+    sh.outcome((n, case["v0"], case["v1"], case.get("route"), round(worst, 6)))
     sh.nontriv()
     if case["n"] == 2 and case["v0"] == 3:
         sh.sample({"sub": "alloc", "measured_variance_share": share, "worst_ratio_to_budget": worst})
@@ -243,7 +288,8 @@ def bias_tolerance(crit, alpha, rmse=1.0):
 def _budget(sh, case):
     crit = _criteria()
     share = variance_share(crit)
-    for alpha in (0.1, 0.25, 0.4, 0.5, 1.0, 2.0):  # weak rates below 0.5 are legitimate (Blumenthal-Getoor index above 1)
+    # weak rates below 0.5 are legitimate (Blumenthal-Getoor index above 1), and so are rates above 2 (high-order scheme)
+    for alpha in (0.1, 0.25, 0.4, 0.5, 1.0, 2.0, 2.5, 3.0, 4.0):
         for rmse in RMSES:
             sh.count("evaluations")
             tol = bias_tolerance(crit, alpha, rmse)
@@ -253,7 +299,7 @@ def _budget(sh, case):
                 continue
             total = tol ** 2 + share
             if total > 1 + 1e-6:
-                sh.violation(f"C06:budget:bias-tolerance-squared-plus-variance-share-exceeds-rmse-squared:{'alpha<0.5' if alpha < 0.5 else 'alpha>=0.5'}",
+                sh.violation(f"C06:budget:bias-tolerance-squared-plus-variance-share-exceeds-rmse-squared:{alpha_class(alpha)}",
                              f"alpha={alpha}, rmse={rmse}: accepted bias {tol:.6f} rmse (squared {tol ** 2:.4f}) + variance share "
                              f"{share:.4f} = {total:.4f} > 1", {"tol": tol, "share": share})
     sh.nontriv()
@@ -263,7 +309,7 @@ def _budget(sh, case):
 def _shape(sh, case):
     crit = _criteria()
     vals = [1e-3, 1e-2, 1e-1, 1.0]
-    for alpha in (0.25, 0.5, 1.0, 2.0):
+    for alpha in (0.25, 0.5, 1.0, 2.0, 3.0):
         for rmse in (1.0, 0.1):
             acc = {}
             for ml in itertools.product(vals, repeat=3):
@@ -286,35 +332,50 @@ def _shape(sh, case):
 # ----------------------------------------------------------------------------------------------------------------------
 
 RAY_LETTERS = [0.0, 0.25, 1.0, 4.0]
+# weak rates above 2 (smooth payoff / high-order scheme, or regressed from fast-decaying means): the weight 4^a of the third-last
+# mean is 32 .. 256, so the direction alphabet gets two larger letters there (a third-last mean that dominates the other two
+# extrapolated terms although these do not vanish)
+RAY_LETTERS_HIGH = [0.0, 0.25, 1.0, 4.0, 64.0, 1024.0]
+RAY_ALPHAS = [0.1, 0.25, 0.5, 0.6, 1.0, 2.0, 2.5, 3.0, 4.0]
+
+
+def alpha_class(alpha):
+    """Input class of a weak rate in the violation keys."""
+    return "alpha<0.5" if alpha < 0.5 else "alpha>2" if alpha > 2 else "alpha>=0.5"
 
 
 def giles_estimate(ml, alpha):
     """Giles' estimate of the bias that remains after the last level, written out as the independent reference of the
     stopping test: max(m_L, m_{L-1}/2^a, m_{L-2}/4^a) / (2^a - 1), the last three level means extrapolated to the last
-    level with the weak rate a and summed over the levels not simulated. Returns (value, name of the dominating term)."""
+    level with the weak rate a (one division by 2^a per level of distance) and summed over the levels not simulated.
+    Returns (value, name of the dominating term)."""
     w = 2.0 ** float(alpha)
-    terms = [float(ml[-1]), float(ml[-2]) / w, float(ml[-3]) / (w * w)]
+    terms = [float(ml[-1]), float(ml[-2]) / w, float(ml[-3]) / w / w]
     k = max(range(3), key=lambda i: (terms[i], -i))
     return terms[k] / (w - 1.0), ("last-level", "previous-level", "third-last-level")[k]
 
 
 def _rays(sh, case):
-    crit = _criteria()
+    crit = _criteria(case.get("route", "object"))
+    rsuf = f":{case['route']}-route" if case.get("route") else ""
     share = variance_share(crit)
     left = math.sqrt(max(0.0, 1.0 - share))  # what the allocation leaves of rmse for the bias
     worst = 0.0
-    probe = lambda: [bool(crit.criteria(a, np.array(m), r)) for a in (0.5, 1.0, 2.0) for r in (1.0, 0.1)  # noqa: E731
-                     for m in ([0.3, 0.2, 0.1], [0.01, 0.02, 0.04], [1.0, 0.01, 0.01], [5.0, 0.04, 0.02, 0.01])]
+    probe = lambda: [bool(crit.criteria(a, np.array(m), r)) for a in (0.5, 1.0, 2.0, 3.0) for r in (1.0, 0.1)  # noqa: E731
+                     for m in ([0.3, 0.2, 0.1], [0.01, 0.02, 0.04], [1.0, 0.01, 0.01], [5.0, 0.04, 0.02, 0.01], [40.0, 0.5, 0.01])]
     before = probe()
-    for alpha in (0.1, 0.25, 0.5, 0.6, 1.0, 2.0):
+    alphas = RAY_ALPHAS if case.get("alpha") is None else [RAY_ALPHAS[case["alpha"]]]
+    for alpha in alphas:
+        letters = RAY_LETTERS_HIGH if alpha > 2 else RAY_LETTERS
         for rmse in RMSES:
-            for d3 in itertools.product(RAY_LETTERS, repeat=3):
+            for d3 in itertools.product(letters, repeat=3):
                 if not any(d3):
                     continue
                 for lead in ((), (5.0,), (0.0, 5.0)):
                     d = np.array(lead + d3, dtype=float)
                     sh.count("evaluations")
                     g, dom = giles_estimate(d, alpha)
+                    sh.cls(f"rays:{alpha_class(alpha)}:{dom}-dominates")
                     big = 1e9 * rmse
                     if crit.criteria(alpha, big * d, rmse):
                         sup = math.inf
@@ -333,17 +394,17 @@ def _rays(sh, case):
                     accepted = sup * g / rmse  # largest accepted bias estimate in units of rmse
                     worst = max(worst, accepted)
                     if not (accepted <= left * (1 + 1e-6)):
-                        ak = "alpha<0.5" if alpha < 0.5 else "alpha>=0.5"
-                        sh.violation(f"C06:rays:accepted-bias-estimate-squared-plus-variance-share-exceeds-rmse-squared:{dom}-dominates:{ak}",
+                        sh.violation(f"C06:rays:accepted-bias-estimate-squared-plus-variance-share-exceeds-rmse-squared:{dom}-dominates:{alpha_class(alpha)}{rsuf}",
                                      f"alpha={alpha}, rmse={rmse}: level means x*{d.tolist()} are accepted up to x={sup:.6g}, i.e. a bias "
                                      f"estimate max(m_L, m_L-1/2^a, m_L-2/4^a)/(2^a-1) of {accepted:.6f} rmse; squared {accepted ** 2:.4f} + "
                                      f"variance share {share:.4f} > 1", {"share": share, "direction": d.tolist()})
             sh.outcome((alpha, rmse, round(min(worst, 1e6), 6)))
     if probe() != before:  # the stopping test is a function of its arguments
-        sh.violation("C06:rays:verdict-depends-on-earlier-calls", f"the same 24 (alpha, ml, rmse) gave {before} before the enumeration, "
-                     f"{probe()} after", None)
+        sh.violation("C06:rays:verdict-depends-on-earlier-calls", f"the same {len(before)} (alpha, ml, rmse) gave {before} before the "
+                     f"enumeration, {probe()} after", None)
     sh.nontriv()
-    sh.sample({"sub": "rays", "variance_share": share, "largest_accepted_bias_estimate_over_rmse": worst})
+    if case.get("alpha") in (None, 4):
+        sh.sample({"sub": "rays", "alphas": alphas, "variance_share": share, "largest_accepted_bias_estimate_over_rmse": worst})
 
 
 # ----------------------------------------------------------------------------------------------------------------------
@@ -523,13 +584,31 @@ def _loop(sh, case):
 
 
 def run_once(sh, case, chooser):
-    eng, rec, product, coupling = C5.build_engine(case, chooser)
+    high = case.get("order") == "high"
+    if high:
+        eng, rec, product, coupling = build_high_order_engine(case, chooser)
+    else:
+        eng, rec, product, coupling = C5.build_engine(case, chooser)
     real_choose = chooser.choose
+    kinds = len(LOOP_KINDS)
+    level_kind = {}
 
     def guarded(arity, label=""):
         lvl = int(label.split(":")[1][1:]) if label.startswith("regime:") else 0
         if rec.batches.get(lvl, 0) > C5.HORIZON:
             raise C5.Horizon(label)
+        if high:
+            # the environment chooses the KIND of the level at its first batch (the regime is the kind at that level); a later
+            # batch keeps the mean of its level (samples of one level with two different means are a variance of the order of
+            # the squared level mean, i.e. 1e6 .. 1e12 samples) and chooses between the default and the large variance
+            if lvl not in level_kind:
+                level_kind[lvl] = real_choose(kinds, label)
+                k = level_kind[lvl]
+            elif level_kind[lvl] > 1:
+                k = level_kind[lvl]
+            else:
+                k = real_choose(2, label)
+            return min(lvl, case["Lmax"] + 1) * kinds + k
         return real_choose(arity, label)
 
     chooser.choose = guarded
@@ -537,10 +616,66 @@ def run_once(sh, case, chooser):
         obs = observe_price(eng, product, case["rmse"])
     finally:
         chooser.choose = real_choose
-    sig = judge_run(sh, "loop", "", obs, rec, Lmax=case["Lmax"], rmse=case["rmse"], rates=case.get("rates", "given"),
-                    alpha_given=1.0)
+    sig = judge_run(sh, "loop", ":high-order" if high else "", obs, rec, Lmax=case["Lmax"], rmse=case["rmse"],
+                    rates=case.get("rates", "given"), alpha_given=case["a"] if high else 1.0)
     traj = sig[:3] if sig is not None else ()
     return traj, obs["outcome"]
+
+
+# loop with a weak rate above 2 (the C05 lattice has the first-order rates alpha = 1, beta = 2 only): level means c 2^(-a l),
+# level sd s 2^(-l), cost 2^l; the environment chooses per (level, batch) one of
+LOOP_KINDS = ["default", "large-variance", "zero-mean", "mean-x2", "mean-x4", "mean-x8", "mean-x64", "persistent-mean"]
+HIGH_DECAYS = [2.5, 3.0, 4.0]
+
+
+def high_order_scale(a, level=3):
+    """c such that the plain profile c 2^(-a l) is 1 at `level` (for rmse of order 1 the run is then decided around it)."""
+    return 2.0 ** (a * level)
+
+
+def high_order_regimes(case):
+    a, c, s = case["a"], case["c"], case["s"]
+    out = []
+    for l in range(case["Lmax"] + 2):  # one level above the maximum so that a run that goes there is reported, not crashed
+        m, sd = c * 2.0 ** (-a * l), s * 2.0 ** (-l)
+        for kind in LOOP_KINDS:
+            mean = {"zero-mean": 0.0, "mean-x2": 2 * m, "mean-x4": 4 * m, "mean-x8": 8 * m, "mean-x64": 64 * m,
+                    "persistent-mean": c}.get(kind, m)
+            out.append((kind, mean, 2.0 * s if kind == "large-variance" else sd, False, False))
+    return out
+
+
+def build_high_order_engine(case, chooser):
+    from rpylib.montecarlo.configuration import ConfigurationMultiLevel, ConvergenceRates
+    from rpylib.montecarlo.multilevel.engine import Engine
+
+    rec = D.Recorder(chooser, regimes=high_order_regimes(case))
+    coupling = D.ScriptedCoupling(rec, df=1.0)
+    product = D.make_product("forward", notional=1.0)
+    rates = ConvergenceRates(alpha=case["a"], beta=2.0, gamma=1.0) if case["rates"] == "given" else ConvergenceRates()
+    conf = ConfigurationMultiLevel(convergence_rates=rates, initial_level=case["L0"], maximum_level=case["Lmax"],
+                                   initial_mc_paths=case["N0"], seed=None, nb_of_processes=1)
+    return Engine(configuration=conf, coupling_process=coupling), rec, product, coupling
+
+
+def high_order_loop_cases(tier):
+    thorough = tier == "thorough"
+    out = []
+    for a in HIGH_DECAYS:
+        for rates in ("given", "regressed"):
+            for (rmse, N0, Lmax) in (((0.5, 5, 5), (0.3, 5, 5), (0.5, 2, 6), (0.3, 16, 6)) if thorough else ((0.5, 5, 5),)):
+                base = {"sub": "loop", "order": "high", "a": a, "c": high_order_scale(a), "s": 1.0, "L0": 2, "Lmax": Lmax, "N0": N0,
+                        "rmse": rmse, "rates": rates}
+                out.append(dict(base, bound=1, shard=[0, 1]))
+                if thorough and (rmse, N0) == (0.5, 5):
+                    for i in range(8):
+                        out.append(dict(base, bound=2, shard=[i, 8]))
+    if not thorough:  # one more rmse (the run is decided one level later) and one more start
+        out.append({"sub": "loop", "order": "high", "a": 2.5, "c": high_order_scale(2.5), "s": 1.0, "L0": 2, "Lmax": 5, "N0": 5,
+                    "rmse": 0.3, "rates": "regressed", "bound": 1, "shard": [0, 1]})
+        out.append({"sub": "loop", "order": "high", "a": 3.0, "c": high_order_scale(3.0), "s": 1.0, "L0": 3, "Lmax": 5, "N0": 2,
+                    "rmse": 0.3, "rates": "given", "bound": 1, "shard": [0, 1]})
+    return out
 
 
 # ----------------------------------------------------------------------------------------------------------------------
@@ -552,7 +687,8 @@ DECAYS = [0.6, 1.0, 2.0]
 RATE_KINDS = ["regressed", "given", "alpha-only", "alpha-regressed"]
 # "bg-index": all three given through the library's helper compute_convergence_rates(Blumenthal-Getoor index), as its scripts do
 PROFILE_RATE_KINDS = RATE_KINDS + ["bg-index"]
-WEAK_RATE_GIVEN = ("given", "alpha-only", "bg-index")
+# "given-high-order": the three rates of a high-order scheme, (a, 2a, 1), the variance decaying faster than the cost grows
+WEAK_RATE_GIVEN = ("given", "alpha-only", "bg-index", "given-high-order")
 
 
 def bg_index(a):
@@ -571,12 +707,16 @@ class LevelChooser:
         return min(lvl, arity - 1)
 
 
-def scenario(a, mult=None, *, rates="regressed", rmse=0.2, sd=1e-3, L0=2, Lmax=6, N0=4, crit="default", c=0.5, form=None):
+def scenario(a, mult=None, *, rates="regressed", rmse=0.2, sd=1e-3, L0=2, Lmax=6, N0=4, crit="default", c=0.5, form=None,
+             alpha=None):
     """JSON-able description of one pricing: level means c 2^(-a l) mult_l, level standard deviations sd rmse 2^(-l/2),
     cost 2^l per sample, and the public options of the configuration. form (ENGINE_FORMS): the form in which the numbers
-    reach the public entry points, or the copy of the configuration that is priced (see in_form / price_step)."""
+    reach the public entry points, or the copy of the configuration that is priced (see in_form / price_step). alpha: the weak
+    rate a configuration that gives it gives (default: the decay a of the means; another value = a given rate that is not the
+    decay of the means, as a user's rate need not be)."""
+    given = (1.0 - bg_index(a) / 2.0) if rates == "bg-index" else (a if alpha is None else alpha)
     sc = {"a": a, "mult": {str(k): v for k, v in (mult or {}).items()}, "c": c, "rates": rates, "rmse": rmse, "sd": sd,
-          "L0": L0, "Lmax": Lmax, "N0": N0, "crit": crit, "alpha_given": (1.0 - bg_index(a) / 2.0) if rates == "bg-index" else a}
+          "L0": L0, "Lmax": Lmax, "N0": N0, "crit": crit, "alpha_given": given}
     if form is not None:
         sc["form"] = form
     return sc
@@ -615,6 +755,8 @@ def make_rates(kind, alpha, form=None):
         return compute_convergence_rates(f(2.0 - 2.0 * alpha))
     if kind == "given":
         return ConvergenceRates(alpha=f(alpha), beta=f(1.0), gamma=f(1.0))
+    if kind == "given-high-order":
+        return ConvergenceRates(alpha=f(alpha), beta=f(2.0 * alpha), gamma=f(1.0))
     if kind == "alpha-only":
         return ConvergenceRates(alpha=f(alpha))
     if kind == "alpha-regressed":
@@ -758,8 +900,10 @@ def _profile(sh, case):
                 for sd in case["sds"]:
                     for crit in case["crits"]:
                         for (L0, N0) in case["starts"]:
-                            sc = scenario(case["a"], mult, rates=rates, rmse=rmse, sd=sd, L0=L0, Lmax=case["Lmax"], N0=N0, crit=crit)
-                            _, _, sig = price_step(sh, "profile", f":{crit}-criteria" if crit != "default" else "", sc, "explicit")
+                            sc = scenario(case["a"], mult, rates=rates, rmse=rmse, sd=sd, L0=L0, Lmax=case["Lmax"], N0=N0, crit=crit,
+                                          c=case.get("c", 0.5), alpha=case.get("alpha"))
+                            suffix = (f":{crit}-criteria" if crit != "default" else "") + (":high-order" if case.get("order") == "high" else "")
+                            _, _, sig = price_step(sh, "profile", suffix, sc, "explicit")
                             sigs.add(sig)
                             sh.outcome(sig[:3] if sig else None)
                             if sig is not None:
@@ -854,8 +998,8 @@ def history_scenarios(thorough):
     firsts = [scenario(2.0), scenario(0.6), scenario(1.0, {4: 8.0})]
     seconds = [scenario(0.6), scenario(2.0, N0=6, Lmax=5), scenario(1.0, {3: 8.0, 4: 8.0}, rmse=0.1)]
     if thorough:
-        firsts += [scenario(1.0), scenario(1.0, {3: 0.0})]
-        seconds += [scenario(1.0, rmse=0.05, Lmax=8), scenario(0.6, {5: 64.0}, L0=3)]
+        firsts += [scenario(1.0), scenario(1.0, {3: 0.0}), scenario(3.0, {1: 8.0}, c=0.5 * high_order_scale(3.0))]
+        seconds += [scenario(1.0, rmse=0.05, Lmax=8), scenario(0.6, {5: 64.0}, L0=3), scenario(2.5, {2: 8.0}, c=0.5 * high_order_scale(2.5))]
     return firsts, seconds
 
 
@@ -873,6 +1017,41 @@ def profile_cases(tier):
                 out.append({"sub": "profile", "a": a, "first": first, "Lmax": Lmax, "doubles": "all" if thorough else "adjacent",
                             "rmses": [0.05, 0.2] if thorough else [0.2], "rates": ["regressed", "given"],
                             "sds": [1e-3, 1.0] if thorough else [1e-3], "crits": ["default"], "starts": [[2, 4]]})
+    # weak rates above 2 (high-order scheme / smooth payoff; regressed from fast-decaying means): m_l = c 2^(-a l) mult_l with c
+    # such that the plain profile is 0.5 at level 3 (the runs are decided at levels 2 .. 5, not at once on the initial levels);
+    # a bump x8 / x64 two levels below the last makes the third-last extrapolated term m_{L-2}/4^a the dominating one
+    for a in HIGH_DECAYS:
+        c = 0.5 * high_order_scale(a)
+        hi = {"sub": "profile", "order": "high", "a": a, "c": c}
+        out.append(dict(hi, first=None, Lmax=6, doubles="none", rmses=[0.05, 0.2, 1.0], rates=PROFILE_RATE_KINDS + ["given-high-order"], sds=[1e-3, 1.0],
+                        crits=CRIT_KINDS if thorough else ["default", "functions"], starts=[[2, 4], [3, 7]] if thorough else [[2, 4]]))
+        for Lmax in ((6, 8) if thorough else (6,)):
+            for first in range(0, Lmax + 1):
+                out.append(dict(hi, first=first, Lmax=Lmax, doubles="all" if thorough else "adjacent",
+                                rmses=[0.05, 0.2] if thorough else [0.2], rates=["regressed", "given"],
+                                sds=[1e-3, 1.0] if thorough else [1e-3], crits=["default"], starts=[[2, 4]]))
+    out.append({"sub": "profile", "order": "high", "a": 3.0, "c": 0.5 * high_order_scale(3.0), "first": None, "Lmax": 50, "doubles": "none",
+                "rmses": [0.2], "rates": ["regressed", "given"], "sds": [1.0], "crits": ["to-max", "default"], "starts": [[2, 4]]})
+    # other starts of the hierarchy: a high initial level, initial level = maximum level (no level can be added), the default
+    # number of initial paths (far more than the optimum on the fine levels)
+    for a in DECAYS + HIGH_DECAYS:
+        out.append({"sub": "profile", "a": a, "c": 0.5 * high_order_scale(a) if a > 2 else 0.5, "first": None, "Lmax": 6, "doubles": "none",
+                    "rmses": [0.2], "rates": ["regressed", "given"], "sds": [1e-3, 1.0], "crits": ["default"],
+                    "starts": [[5, 3], [6, 2], [2, 100]], **({"order": "high"} if a > 2 else {})})
+    # slow and no decay of the means (the regressed weak rate is floored; a given rate below 0.5 through alpha alone or through
+    # compute_convergence_rates with an index above 1; ConvergenceRates refuses alpha < min(beta, gamma) / 2 given together)
+    out.append({"sub": "profile", "a": 0.3, "first": None, "Lmax": 6, "doubles": "none", "rmses": [0.05, 0.2, 1.0],
+                "rates": ["regressed", "alpha-only", "alpha-regressed", "bg-index"], "sds": [1e-3, 1.0], "crits": ["default", "object"] if thorough else ["default"],
+                "starts": [[2, 4]]})
+    out.append({"sub": "profile", "a": 0.0, "first": None, "Lmax": 6, "doubles": "none", "rmses": [0.05, 0.2, 1.0],
+                "rates": ["regressed", "alpha-regressed"], "sds": [1e-3, 1.0], "crits": ["default"], "starts": [[2, 4]]})
+    # a GIVEN weak rate that is not the decay of the means (the configuration's rate is the user's): (decay, given rate) with the
+    # means decaying faster than the given rate above 2 (the third-last term dominates on the plain profile), slower, and a
+    # first-order decay with a rate above 2
+    for (a, alpha) in ((4.0, 2.5), (3.0, 2.5), (4.0, 3.0), (2.5, 4.0), (2.0, 3.0), (1.0, 2.5)):
+        out.append({"sub": "profile", "order": "high", "a": a, "alpha": alpha, "c": 0.5 * high_order_scale(a) if a > 2 else 0.5,
+                    "first": None, "Lmax": 6, "doubles": "none", "rmses": [0.05, 0.2, 1.0], "rates": ["given", "alpha-only"],
+                    "sds": [1e-3, 1.0], "crits": ["default", "object"] if thorough else ["default"], "starts": [[2, 4]]})
     return out
 
 
@@ -901,8 +1080,8 @@ INT_DTYPES = ["int64", "int32", "uint8", "uint16"]
 # (counted), a tree that answers is judged like for any other form.
 VECTOR_FORMS = INT_DTYPES + ["float32", "read-only", "strided", "list-float", "list-int", "tuple-float", "tuple-int", "row-1xn"]
 LENIENT_VECTOR_FORMS = ("list-float", "list-int", "tuple-float", "tuple-int", "row-1xn")
-COST_FORMS = ["float32", "read-only", "strided", "row-1xn", "int64"]
-LENIENT_COST_FORMS = ("row-1xn", "int64")
+COST_FORMS = ["float32", "read-only", "strided", "row-1xn", "int64", "list-float", "tuple-int"]
+LENIENT_COST_FORMS = ("row-1xn", "int64", "list-float", "tuple-int")
 MEAN_FORMS = INT_DTYPES + ["float32", "read-only", "strided", "list-float", "list-int", "tuple-float", "tuple-int"]
 LENIENT_MEAN_FORMS = ("list-float", "list-int", "tuple-float", "tuple-int")
 SCALAR_FORMS = ["python-int", "np.float64", "np.float32", "np.int64", "np.int32", "zero-d-array"]
@@ -911,7 +1090,8 @@ W_V = [0.0, 1.0, 3.0, 16.0, 200.0]  # whole numbers: every integer dtype can hol
 W_C = [0.5, 1.0, 50.0]
 W_RMSE = [0.5, 1.0, 2.0, 3.0]
 W_ML = [0.0, 1.0, 2.0, 3.0, 4.0, 8.0]
-W_ALPHA = [0.5, 1.0, 2.0]
+W_ALPHA = [0.5, 1.0, 2.0, 2.5, 3.0, 4.0]  # 3 and 4 also as Python / numpy ints
+W_ML_HIGH = [0.0, 1.0, 2.0, 8.0, 64.0, 512.0]  # for the rates above 2: letters large enough for the third-last term to decide
 W_STOP_RMSE = [1.0, 2.0, 4.0, 8.0]
 
 
@@ -1008,10 +1188,16 @@ def forms_cases(tier):
     for a in range(len(W_ALPHA)):
         out.append({"sub": "forms", "part": "stop", "alpha": a, "full": False})
     if thorough:
-        out.append({"sub": "forms", "part": "stop", "alpha": None, "full": True, "letters": [0.0, 1.0, 3.0, 8.0]})
+        for a in range(len(W_ALPHA)):
+            out.append({"sub": "forms", "part": "stop", "alpha": a, "full": True,
+                        "letters": [0.0, 1.0, 8.0, 512.0] if W_ALPHA[a] > 2 else [0.0, 1.0, 3.0, 8.0]})
     for a in DECAYS:
         out.append({"sub": "forms", "part": "engine", "a": a, "rmses": [1.0, 0.2], "sds": [1e-3, 1.0] if thorough else [1.0],
                     "rates": PROFILE_RATE_KINDS, "starts": [[2, 4], [3, 7]] if thorough else [[2, 4]]})
+    for a in HIGH_DECAYS:  # weak rates above 2 (3 and 4 also handed over as ints); two level means below the decision bumped
+        out.append({"sub": "forms", "part": "engine", "a": a, "c": 0.5 * high_order_scale(a), "mult": {"1": 8.0, "2": 8.0}, "rmses": [1.0, 0.2],
+                    "sds": [1e-3, 1.0] if thorough else [1.0], "rates": PROFILE_RATE_KINDS if thorough else ["regressed", "given", "alpha-only"],
+                    "starts": [[2, 4], [3, 7]] if thorough else [[2, 4]]})
     return out
 
 
@@ -1176,10 +1362,10 @@ def _forms_stop(sh, case):
                          [("list-int", "python-int", "python-int"), ("tuple-int", "python-int", "python-int"),
                           ("int64", "np.int64", "np.int64"), ("int32", "np.int32", "np.int32"), ("int64", "python-int", "python-int"),
                           ("float32", "np.float32", "np.float32"), ("uint8", "python-int", USUAL), ("read-only", "zero-d-array", "zero-d-array")])
-    letters = case.get("letters") or W_ML
     alphas = W_ALPHA if case["alpha"] is None else [W_ALPHA[case["alpha"]]]
     accepted = 0
     for alpha in alphas:
+        letters = case.get("letters") or (W_ML_HIGH if alpha > 2 else W_ML)
         for rmse in W_STOP_RMSE:
             for lead in ((), (9.0,)):
                 for m3 in itertools.product(letters, repeat=3):
@@ -1189,6 +1375,12 @@ def _forms_stop(sh, case):
                     given = ml0.copy()
                     usual = bool(crit.criteria(alpha, given, rmse))
                     accepted += usual
+                    est0, dom0 = giles_estimate(ml0, alpha)
+                    sh.cls(f"forms:stop:usual-form:{alpha_class(alpha)}:{dom0}-dominates:{'accepted' if usual else 'rejected'}")
+                    if usual and not (est0 <= left * rmse * (1 + 1e-6)):  # the reference verdict itself (one-sided, as in rays)
+                        sh.violation(f"C06:forms:stop:accepts-a-bias-estimate-above-the-tolerance:usual-form:{dom0}-dominates:{alpha_class(alpha)}",
+                                     f"criteria({alpha}, {mt}, {rmse}) is True: bias estimate max(m_L, m_L-1/2^a, m_L-2/4^a)/(2^a-1) = "
+                                     f"{est0:.6g} > {left * rmse:.6g} = sqrt(rmse^2 - variance share)", {"share": share})
                     if not np.array_equal(given, ml0):
                         sh.violation("C06:forms:stop:argument-array-modified:usual-form",
                                      f"criteria({alpha}, {mt}, {rmse}) left ml={given.tolist()}", None)
@@ -1237,7 +1429,7 @@ def _forms_engine(sh, case):
         for rmse in case["rmses"]:
             for sd in case["sds"]:
                 for (L0, N0) in case["starts"]:
-                    base = scenario(case["a"], None, rates=rates, rmse=rmse, sd=sd, L0=L0, Lmax=6, N0=N0)
+                    base = scenario(case["a"], case.get("mult"), rates=rates, rmse=rmse, sd=sd, L0=L0, Lmax=6, N0=N0, c=case.get("c", 0.5))
                     _, _, ref = price_step(sh, "forms", ":engine:usual-form", base, "explicit")
                     sigs.add(ref)
                     sh.outcome(ref[:3] if ref else None)
